@@ -1706,3 +1706,39 @@ func stFor(st sysState, idx int) sysState {
 	})
 	return out
 }
+
+// repeatLabels gives the first advertising interface options that share their label values without being
+// neighbours in the RA: stanzas A, B, A' (the same servers / names as A, a lifetime of its own). At most one sample
+// may be reported for them, and a real registry must still gather.
+func (g *vg) repeatLabels(dp *dDoc) {
+	t, d, s := g.t, dp, int64(time.Second)
+	for i := range d.Interfaces {
+		ifi := &d.Interfaces[i]
+		if ifi.Advertise == nil || !*ifi.Advertise {
+			continue
+		}
+		life := func(l string) dDur {
+			n := rapid.SampledFrom([]int64{0, 600, 1800, 7200}).Draw(t, l) * s
+			return dDur{Kind: "value", NS: n, Text: time.Duration(n).String()}
+		}
+		v6 := func(a string) dAddr { return dAddr{Text: a, Kind: "v6", Addr: a} }
+		if len(ifi.Order) == 0 { // (an empty order means "kind by kind": spell it out before extending it)
+			for kind, n := range []int{len(ifi.Prefixes), len(ifi.Routes), len(ifi.RDNSS), len(ifi.DNSSL), len(ifi.PREF64)} {
+				for j := 0; j < n; j++ {
+					ifi.Order = append(ifi.Order, kind)
+				}
+			}
+		}
+		if rapid.Bool().Draw(t, "repeat-rdnss") {
+			a := []dAddr{v6("2001:db8::53"), v6("2001:db8::54")}
+			ifi.RDNSS = append(ifi.RDNSS, dRDNSS{Lifetime: life("la"), Servers: a}, dRDNSS{Lifetime: life("lb"), Servers: []dAddr{v6("fd00::53")}},
+				dRDNSS{Lifetime: life("la2"), Servers: []dAddr{a[1], a[0]}})
+			ifi.Order = append(ifi.Order, 2, 2, 2)
+		} else {
+			ifi.DNSSL = append(ifi.DNSSL, dDNSSL{Lifetime: life("la"), Domains: []string{"lan", "example.com"}, HasKey: true}, dDNSSL{Lifetime: life("lb"), Domains: []string{"corp.example.net"}, HasKey: true},
+				dDNSSL{Lifetime: life("la2"), Domains: []string{"lan", "example.com"}, HasKey: true})
+			ifi.Order = append(ifi.Order, 3, 3, 3)
+		}
+		break
+	}
+}
